@@ -5,8 +5,8 @@ The byte layout of every scenario (N and the item boundaries) is asked from the 
 import os
 import random
 
-SCENARIOS = ["hin", "hout", "seed", "leech", "dis", "pex", "multi", "mblk", "hs3", "full", "fullx"]
-SEEDING = {"hin", "seed", "pex", "hs3", "full", "fullx"}
+SCENARIOS = ["hin", "hout", "seed", "leech", "dis", "pex", "multi", "mblk", "hs3", "full", "fullx", "hfail", "thrd", "thru"]
+SEEDING = {"hin", "seed", "pex", "hs3", "full", "fullx", "hfail", "thru"}
 PEER_FAULTS = "XRH"          # remote close / reset / half close of one peer
 GLOBAL_FAULTS = "TSCDM"      # timeout, local stop / close / remove, every peer at once
 CORPUS = os.path.join(os.path.dirname(os.path.dirname(os.path.abspath(__file__))), "corpus", "C16")
@@ -74,9 +74,10 @@ def gen(seed, tier, layouts):
         for k in sorted(ks):
             full = tier != "thorough" or k in bnd or k % 7 == 0
             faults = []
+            local_only = sc in ("thrd", "thru")   # out of quota the library does not poll the socket: only local teardown
             big = N > 20000 and not full     # long scripts (16 KiB blocks): off the boundaries only close + stop
             for f in PEER_FAULTS:
-                if (f == "H" and not full) or (big and f != "X"):
+                if (f == "H" and not full) or (big and f != "X") or local_only:
                     continue
                 for t in range(np_):
                     faults.append((f, t))
@@ -86,6 +87,8 @@ def gen(seed, tier, layouts):
                 if f == "T" and not full:
                     continue
                 if big and (f != "S" or k % 2):
+                    continue
+                if local_only and f not in "SCD":
                     continue
                 faults.append((f, 0))
             for f, t in faults:
